@@ -86,6 +86,10 @@ def labelled():
                "name from . where name = '*(' or name =~ '*('", "name from . where name like 'x(' or name !=~ 'x('",
                "name from . where name = 'a[' or name like 'a[' or name =~ 'a['", "name from . where not name like '%(' and name =~ '%('"):
         out.append(([qy], 'bad-regex', 'diag'))
+    # a path segment is a pattern when it contains * [ or ? (the documented trigger of the regexp root option)
+    for qy in ("name from 'a[' regexp", "name from 'x/b[' rx", "name from ., '*{' regexp", "name from 'a[/b' regexp where size > 1",
+               "count(*) from 'a[' rx", "name from '?(' regexp order by 1 limit 1", "name from 'a[' depth 1 rx"):
+        out.append(([qy], 'bad-regex', 'diag'))
     for qy in ('name from . where modified > garbage', "name from . where modified = '2021-13-45'", "name from . where modified = '2021-01-01 25:00'",
                "name from . where modified = '2021-02-30'", "name from . where modified > '2021-01-01 10:61'",
                "name from . where modified < '2021-01-01 10:10:99'", 'name from . where modified = x', "name from . where modified = '+x'",
@@ -119,6 +123,8 @@ FUNCS = ['lower', 'upper', 'initcap', 'length', 'to_base64', 'from_base64', 'bin
          'format_size', 'format_time', 'curdate', 'day', 'month', 'year', 'dow', 'current_uid', 'current_user', 'contains',
          'has_xattr', 'xattr', 'has_caps', 'has_cap', 'rand', 'min', 'max', 'avg', 'sum', 'count', 'stddev', 'var_samp',
          'contains_japanese', 'kana']
+EDGE_INTS = ['-2147483648', '-2147483649', '2147483647', '2147483648', '4294967295', '4294967296', '-9223372036854775808',
+             '9223372036854775807', '9223372036854775808', '18446744073709551615', '-1', '0']
 ARGK = ['', 'word', '5', '-3', '0.5', '99999999999999999999', '2021-03-04', 'name', 'size', 'modified', 'is_dir', "'a b'", '*']
 
 
@@ -135,6 +141,12 @@ def func_cases(tier):
         if f in ('substr', 'replace', 'concat', 'concat_ws', 'coalesce', 'least', 'greatest', 'rand', 'power', 'format_size'):
             for a, b, c in itertools.product(ks3, repeat=3):
                 yield ['name, %s(%s, %s, %s) from .' % (f, a, b, c)]
+        # integers at the edges of the machine types, alone and behind a text argument
+        for n in EDGE_INTS:
+            yield ['name, %s(%s) from .' % (f, n)]
+            yield ['name, %s(name, %s) from .' % (f, n)]
+            yield ["name, %s('abc', %s, %s) from ." % (f, n, n)]
+            yield ["name, %s('abc', 2, %s) from ." % (f, n)]
         yield ['name from . where %s(name) = 1' % f]
         yield ['name from . where %s = 1' % f]
 
